@@ -20,7 +20,8 @@ pub struct TranspositionTableEntry<T: Clone + TTOverwriteable> {
 pub fn calculate_number_of_entries<T: Clone + TTOverwriteable>(size_mb: usize) -> usize {
     let size_of_entry = std::mem::size_of::<TranspositionTableEntry<T>>();
     let total_size_in_bytes = size_mb * 1024 * 1024;
-    total_size_in_bytes / size_of_entry
+    // A table always has at least one slot: slots are indexed by `key % len`, and Hash=0 is advertised
+    (total_size_in_bytes / size_of_entry).max(1)
 }
 
 impl<T: Clone + TTOverwriteable> TranspositionTable<T> {
